@@ -43,9 +43,7 @@ let () =
         | "S" :: [] -> string_of_codes (snake_render [])
         | "P" :: [] -> string_of_codes (pascal_render [])
         | "K" :: [] -> string_of_codes (p2c_render [])
-        | "X" :: l :: _ -> string_of_codes (clash_render (List.map keydesc (items l)))
         | "Y" :: l :: _ -> string_of_codes (stable_render (List.map keydesc (items l)))
-        | "U" :: h :: _ -> string_of_codes (unescaped_render (codes_of_hex h))
         | "I" :: h :: _ -> string_of_codes (identok_render (codes_of_hex h))
         | "I" :: [] -> string_of_codes (identok_render [])
         | "F" :: l :: _ -> string_of_codes (fields_render (List.map keydesc (items l)))
